@@ -86,7 +86,17 @@ def h_hostile(ex, srcs, gaps, phase='fresh', length=8, dll='j1939-21'):
     n = st.node
     w.run(until=T('1/100'))
     own_L = 30   # 5 packets
-    if phase != 'fresh':
+    if phase.startswith('in_'):
+        # an inbound session from P is open when the traffic starts: RTS answered / first packet received / BAM running
+        if phase == 'in_bam':
+            w.inject(n, tp21.can_id(7, 0xEC, 255, P), tp21.bam(own_L, 0xFE10))
+        else:
+            w.inject(n, tp21.can_id(7, 0xEC, S, P), tp21.rts(own_L, 255, MSG_PF << 8))
+        w.run(until=w.now + T('1/100'))
+        if phase in ('in_mid', 'in_bam'):
+            w.inject(n, tp21.can_id(7, 0xEB, 255 if phase == 'in_bam' else S, P), tp21.dt(1, [(j * 5) % 256 for j in range(own_L)]))
+            w.run(until=w.now + T('1/100'))
+    elif phase != 'fresh':
         r = st.ca.send_pgn(0, MSG_PF, P, 6, [(j * 3) % 256 for j in range(own_L)])
         w.run(until=w.now + T('1/100'))
         if phase in ('window', 'all_sent'):
@@ -162,6 +172,13 @@ def jobs(tier):
         J(srcs=[P], gaps=['0'], phase=ph, length=3)
         J(srcs=[P], gaps=['0'], phase=ph, length=0)
     pairs = [('0',), ('0.76s',), ('1.26s',)] if q else [(g,) for g in GAPS]
+    for ph in ('in_rts', 'in_mid', 'in_bam'):
+        for src in ((P,) if q else (P, S, 0x42, 255)):
+            J(srcs=[src], gaps=['0'], phase=ph)
+        if not q:
+            J(srcs=[P], gaps=['0'], phase=ph, length=3)
+            for g in ('0', '0.76s', '1.26s'):
+                J(srcs=[P, P], gaps=['0', g], phase=ph, wall=900)
     for ph in (('fresh', 'all_sent') if q else phases):
         for (g,) in pairs:
             J(srcs=[P, P], gaps=['0', g], phase=ph, wall=900)
@@ -178,7 +195,7 @@ def jobs(tier):
 def meta(tier):
     return {
         'bounds': ['J1939-21: sequences of 1..2 hostile frames; per frame priority, PDU format (all 256), destination (all 256) and all data bytes (every control byte, size, packet, sequence, PGN field) symbolic; source address from {0x42, own 0x20, 254, 255}; data length 8 (and 0, 3 for single frames)',
-                   'stack state when the traffic starts: fresh / own 5-packet transfer after RTS / after the first CTS window / after all packets (waiting for the acknowledgement)',
+                   'stack state when the traffic starts: fresh / own 5-packet transfer after RTS / after the first CTS window / after all packets (waiting for the acknowledgement) / inbound 5-packet session after its RTS / after its first packet / inbound BAM after its first packet',
                    'gap before the second frame from ' + ('{0, 0.76 s, 1.26 s}' if tier == 'quick' else str(sorted(GAPS))),
                    'delivery before / after a pending job pass explored (interleaving model)',
                    'afterwards: 6.5 s + 6 s of silence, a one-shot timer, scripted well-formed transfers in both directions on the pair the traffic used',
